@@ -51,7 +51,6 @@ func c14WriteTwice(n int) {
 	d1.UF, d2.UF = true, true
 	err1 := t1.Write(d1, int64(vp.U32("sizeA"))*512)
 	err2 := t2.Write(d2, int64(vp.U32("sizeB"))*512)
-	vp.Assert(vp.NondetSources() == 0, "mbr.Table.Write consults no clock, random source or map order")
 	vp.Assert(err1 == nil, "first execution accepted")
 	vp.Assert(err2 == nil, "second execution accepted")
 	vp.Assert(len(d1.Log) == 1, "one write")
@@ -74,6 +73,7 @@ func c14WriteTwice(n int) {
 	for i := range before {
 		vp.Assert(d1.ByteAt(446+int64(i)) == before[i], "writing the same table again changes no byte")
 	}
+	vp.Assert(vp.NondetSources() == 0, "mbr.Table.Write consults no clock, random source or map order")
 	vp.Cover("written twice")
 }
 
@@ -97,7 +97,6 @@ func VP_C14_mbr_rewrite_read() {
 		before[i] = dev.ByteAt(int64(i))
 	}
 	err = t.Write(dev, 1<<40)
-	vp.Assert(vp.NondetSources() == 0, "Read + Write consult no clock, random source or map order")
 	vp.Assert(err == nil, "a table that was read can be written")
 	for i := range dev.Log {
 		w := dev.Log[i]
@@ -108,6 +107,7 @@ func VP_C14_mbr_rewrite_read() {
 		vp.Assert(dev.ByteAt(int64(i)) == before[i], "rewriting a table that was read from disk changes nothing")
 	}
 	vp.Assert(len(dev.Log) > 0, "the table was written")
+	vp.Assert(vp.NondetSources() == 0, "Read + Write consult no clock, random source or map order")
 	if t.Partitions[0].Bootable {
 		vp.Cover("bootable first slot")
 	}
